@@ -15,6 +15,9 @@
                                (`map_or`, `zip`, `and_then`, `?`, ...) on decided values are computed.  What reaches the
                                `insert` call is the table row.  Nothing is matched against a particular `match` shape; a
                                construct the evaluator does not know leaves the row undecided (UNPROVEN), never silently OK.
+  push_only / peel_pushed      a Vec created empty whose only mutation is push(x): its elements are the pushed values
+  completeness_relay(..)       completeness() through such a Vec (collect in one loop / helper, process in another): the
+                               pushes that fill it must themselves run for every element of the recognised collection
 """
 import re
 
@@ -186,7 +189,7 @@ def _scan(sl, f, bb, v, scope, root, table, detail, keyv=None):
                             _record(f, bb, y, scope, [kv], root, table, detail)
 
 
-LISTED_KEYS = []   # (scope, fn, bb, path value of the listed directory entry, [key values]) of the last reader_scope_table()
+LISTED_KEYS = []   # (scope, fn, bb, path value of the listed directory entry, [key values], site of the per-directory read) of the last reader_scope_table()
 
 
 def _record(f, bb, x, scope, kvs, root, table, detail):
@@ -203,7 +206,11 @@ def _record(f, bb, x, scope, kvs, root, table, detail):
             cs = base + ('<key>' if key_ok else '<not-the-directory-name>',)
             if not sc.endswith('[*]'):
                 sc = sc + '[*]'
-            LISTED_KEYS.append((sc, f, bb, pv, list(kvs)))
+            LISTED_KEYS.append((sc, f, bb, pv, list(kvs), x[3] if len(x) == 4 else None))
+            if not [k for k in kvs if k is not None] and sc in table:
+                # the same read seen through the helper that stores it (keys are found at the helper's inserts)
+                detail.setdefault(sc, (f, bb, x))
+                return
     table[sc] = cs
     detail[sc] = (f, bb, x)
 
@@ -282,6 +289,61 @@ def _name_transparent(name):
     if name in TRANSPARENT:
         return True
     return any(r.match(name) for r in _TRX) and 'From<' not in name
+
+
+PUSH = 'std::vec::Vec::<T, A>::push'
+_FRESH_VEC = ('::new', '::with_capacity', '::default')
+
+
+def push_only(sl, fn, local):
+    """[push Calls] when `local` is a Vec that is created empty (one definition) and whose only mutation is
+    `Vec::push(&mut local, x)` (every `&mut` borrow of it is used once, as the receiver of a push); otherwise None"""
+    if not (fn.local_ty(local) or '').startswith('std::vec::Vec<'):
+        return None
+    defs = fn.whole_defs(local)
+    if len(defs) != 1 or defs[0][0] != 'call' or fn.partial_defs(local):
+        return None
+    c0 = defs[0][3]
+    n0 = c0.decl or c0.name or ''
+    if c0.indirect or c0.args or not (n0.startswith('std::vec::Vec') and n0.endswith(_FRESH_VEC)):
+        return None
+    roots = GrowSlicer._mut_roots(sl, fn)
+    reach = fn.reachable(0)
+    pushes, chain_locals = [], set()
+    for c in fn.calls:
+        if c.indirect or c.bb not in reach or not c.args:
+            continue
+        pl = op_place(c.args[0])
+        if pl is None or len(pl) != 1 or pl[0] not in roots or roots[pl[0]][0] != local:
+            continue
+        if not (len(c.args) == 2 and PUSH in (c.decl, c.name, c.res)):
+            return None
+        pushes.append(c)
+        chain_locals |= set(roots[pl[0]][1])
+    for r in chain_locals:
+        if len([u for u in fn.uses_of(r) if u[0] in reach and u[1] != 'drop']) != 1:
+            return None
+    for bi, kind, si, how, pl in fn.uses_of(local):
+        if bi not in reach or kind == 'drop':
+            continue
+        if how in ('refmut', 'rawptr'):
+            dest = fn.blocks[bi]['s'][si][1] if kind == 'stmt' else None
+            if not (dest and len(dest) == 1 and dest[0] in chain_locals):
+                return None
+    return pushes
+
+
+def peel_pushed(prog, v):
+    """the ('pushed', element, key) value under the `mutated` marker of the iterator local that `next` advances"""
+    for _ in range(3):
+        if v[0] == 'mutated' and len(v) == 3 and isinstance(v[2], tuple) and len(v[2]) == 2:
+            f = prog.fns.get(v[2][0])
+            if f is None or (f.local_ty(v[2][1]) or '').startswith('std::vec::Vec<'):
+                return None       # the vector itself is mutated in place by something that is not a push
+            v = v[1]
+        else:
+            break
+    return v if v[0] == 'pushed' else None
 
 
 class Act:
@@ -394,8 +456,16 @@ class Act:
                 if l in self.mutref or l in self._partial:
                     fresh = v[0] == 'call' and v[1].endswith(('::new', '::with_capacity', '::default')) and not v[2][1:]
                     rd = self._read_into(l) if (l in self.mutref and fresh) else None
+                    pc = push_only(self.I.sl, fn, l) if (l in self.mutref and fresh and rd is None) else None
                     if rd is not None:
                         v = rd
+                    elif pc:
+                        # a Vec created empty and mutated by nothing but `push(x)`: each of its elements is one of the
+                        # pushed values (which one / how many is not stated: consumers see `next()` = Some(x) | None)
+                        el = _join([self.operand(c.args[1]) for c in pc if c.bb in self.feasible])
+                        key = (fn.path, l)
+                        self.I.pushed[key] = (self, [c for c in pc if c.bb in self.feasible])
+                        v = ('pushed', el, key) if el is not BOTTOM else ('mutated', v, key)
                     elif _decided(v):
                         # the evaluator does not follow mutation through `&mut` / field assignment: never decide on such a value
                         v = ('unknown', 'mutated in place', (fn.path, l))
@@ -539,6 +609,8 @@ def show(v):
             return x
         if x[0] == 'mutated':
             return ('call', 'mutated-in-place', (conv(x[1]),), None)
+        if x[0] == 'pushed':
+            return ('call', 'vec-of-pushed', (conv(x[1]),), None)
         return tuple(conv(y) if isinstance(y, tuple) else y for y in x)
     return vstr(conv(v))
 
@@ -560,6 +632,7 @@ class Interp:
         self.acts = {}
         self.stack = []
         self.ctx = []
+        self.pushed = {}     # (fn path, local) of a push-only Vec -> (producing activation, [push Calls])
 
     def activation(self, fn, args):
         key = (fn.path, canon(tuple(args)))
@@ -682,6 +755,11 @@ class Interp:
                 return ('const', a[1].lower() == b[1].lower())
             return None
         it = [n[len(iters.IT):] for n in names if n.startswith(iters.IT)]
+        if it and it[0] == 'next' and a0 is not None and len(args) == 1:
+            pv = peel_pushed(self.prog, a0)
+            if pv is not None:
+                return _join([some(pv[1]), NONE])
+            return None
         if it and a0 is not None and len(args) == 2 and it[0] in ('find', 'find_map', 'any', 'all', 'position'):
             elems = _elements(a0)
             if elems is None:
@@ -1213,6 +1291,137 @@ def completeness(E, e, is_base, allow_filter=False):
     return found, probs, unknown
 
 
+# ---- relayed iterations: the effect runs once per element of a Vec that another loop fills with one push per element ----
+def _returned_local(E, fn):
+    """the local whose value every success site of fn returns (`Ok(v)` / `v`, through plain moves), or None"""
+    out = set()
+    for st in E.sites(fn):
+        if st.kind != 'ok':
+            return None
+        rv = st.stmt
+        if rv['r'] == 'agg' and rv.get('kind') == 'adt' and rv.get('adt') in (RESULT, OPTION) and rv.get('variant') in ('Ok', 'Some') \
+                and len(rv['ops']) == 1:
+            pl = op_place(rv['ops'][0])
+        elif rv['r'] == 'use':
+            pl = op_place(rv['o'])
+        else:
+            return None
+        for _ in range(6):
+            if pl is None or len(pl) != 1:
+                return None
+            l = pl[0]
+            if l <= fn.argc:
+                return None
+            ds = fn.whole_defs(l)
+            if len(ds) == 1 and ds[0][0] == 'stmt' and ds[0][3]['r'] == 'use' and not fn.partial_defs(l) and \
+                    not any(u[3] in ('refmut', 'rawptr') for u in fn.uses_of(l)):
+                pl = op_place(ds[0][3]['o'])
+                continue
+            break
+        else:
+            return None
+        out.add(pl[0])
+    return out.pop() if len(out) == 1 else None
+
+
+def _vec_mutated_elsewhere(fn, but=None):
+    """Vec-typed locals of fn that are borrowed mutably (the plain slicer does not see what such a borrow does)"""
+    bad = []
+    for l in range(len(fn.locals)):
+        if l == but or not (fn.local_ty(l) or '').startswith('std::vec::Vec<'):
+            continue
+        if any(u[3] in ('refmut', 'rawptr') for u in fn.uses_of(l)):
+            bad.append(l)
+    return bad
+
+
+def relay_pushes(E, e, base, root_fn):
+    """`base` (the collection an iteration context of effect e ranges over, in entry terms) is a Vec that is filled by
+    pushes only — returned by a private workspace function, or a local created empty: -> ([PUSH effects of root_fn that
+    fill it], [reasons why the relay is not exact]) or None when base is not such a Vec.  Needs PUSH in E.vocab."""
+    sl, prog = E.slicer, E.prog
+    b = strip(base)
+    while b[0] == 'call' and len(b[2]) == 1 and iters._is_source(b[1]) and b[1].endswith(iters.SAME_ELEMS):
+        b = strip(b[2][0])
+    if b[0] != 'call' or len(b) != 4 or not b[3]:
+        return None
+    site = b[3]
+    K = prog.fns.get(b[1])
+    via_call = None
+    if K is not None:
+        if K.kind == 'Closure' or K.vis == 'pub' or K.crate != root_fn.crate:
+            return None
+        V = _returned_local(E, K)
+        via_call = site
+    else:
+        if not (b[1].startswith('std::vec::Vec') and b[1].endswith(_FRESH_VEC) and not b[2]):
+            return None
+        K = prog.fns.get(site[0])
+        cs = [c for c in K.calls if c.bb == site[1]] if K is not None else []
+        V = cs[0].dest[0] if (len(cs) == 1 and cs[0].dest and len(cs[0].dest) == 1) else None
+    if K is None or V is None:
+        return None
+    why = []
+    pc = push_only(sl, K, V)
+    if pc is None:
+        return [], ['the vector %s of %s is mutated by something other than push' % (K.local_name(V) or V, K.path.split('::')[-1])]
+    # the plain slicer does not follow `&mut`: no other vector may be mutated in place in the functions the vector passes through
+    fns = {K.path: K}
+    for c in [l.call for l in e.chain] + [e.call]:
+        f = c.fn
+        while f is not None:
+            fns[f.path] = f
+            f = prog.fns.get(f.parent) if f.kind == 'Closure' else None
+    if via_call is not None and via_call[0] in prog.fns:
+        fns[via_call[0]] = prog.fns[via_call[0]]
+    for f in fns.values():
+        bad = _vec_mutated_elsewhere(f, V if f is K else None)
+        if bad:
+            why.append('%s mutates a vector in place (%s)' % (f.path.split('::')[-1], ', '.join(str(f.local_name(l) or l) for l in bad)))
+    roots = GrowSlicer._mut_roots(sl, K)
+    out = []
+    for pe in E.expand(root_fn, 'may'):
+        if pe.kind != 'PUSH' or pe.call is None or pe.call.fn is not K or not any(pe.call is c for c in pc):
+            continue
+        if via_call is not None and not any((l.call.fn.path, l.call.bb) == via_call for l in pe.chain):
+            continue
+        if not any(x.call is pe.call and x.chain == pe.chain for x in out):
+            out.append(pe)
+    if {id(x.call) for x in out} != {id(c) for c in pc}:
+        why.append('not every push into the vector is reached as an effect of %s' % root_fn.path.split('::')[-1])
+    return out, why
+
+
+def completeness_relay(E, e, is_base, root_fn, allow_filter=False, depth=0):
+    """completeness(), where the collection may also be reached through a relay: the effect runs for every element of a
+    Vec, and that Vec receives one push for every element of the recognised collection (two-phase code: collect, then
+    process).  -> (found, problems, unknown, [relaying PUSH effects: the obligations on e's guards apply to them too])"""
+    found, probs, unknown = completeness(E, e, is_base, allow_filter)
+    relays = []
+    if found or depth > 2:
+        return found, probs, unknown, relays
+    for ctx in iteration_contexts(E, e):
+        base, flag, p, u = context_verdict(E, ctx)
+        if base is None:
+            continue
+        r = relay_pushes(E, e, base, root_fn)
+        if r is None:
+            continue
+        pushes, why = r
+        unknown.extend(why)
+        for pe in pushes:
+            f2, p2, u2, r2 = completeness_relay(E, pe, is_base, root_fn, allow_filter, depth + 1)
+            probs.extend(p2)
+            if f2:
+                found = True
+                unknown.extend(u2)
+                relays.append(pe)
+                relays.extend(r2)
+        if pushes and not found:
+            unknown.append('no push into the relayed vector runs for every element of the collection')
+    return found, probs, unknown, relays
+
+
 def per_iteration(E, e, is_base):
     """in the loop contexts over the recognised collection: does the call leading to e lie on every path from the loop
     header back to it (dominates every latch)?  -> list of problems"""
@@ -1433,7 +1642,7 @@ def _skip_edges(act):
     return out
 
 
-def _bypass(E, act, targets, is_listing):
+def _bypass(E, act, targets, is_listing, relayed=None):
     """can control pass from the start of an iteration (listing loop header, or the entry of a closure / helper) to its
     end (latch / success return) over scenario-feasible blocks without running one of the target blocks and without taking
     a file-type skip edge?  -> 'yes' | 'no' | 'nested' (targets sit in an inner loop that is not the listing loop)"""
@@ -1445,6 +1654,30 @@ def _bypass(E, act, targets, is_listing):
         al = iters.alts(E.slicer, lp.collection) if lp.collection is not None else []
         if len(al) == 1 and al[0][1] is not None and is_listing(al[0][1]):
             listing.append(lp)
+            continue
+        # the iterated expression as this activation sees it (arguments of the helper substituted): the listing itself,
+        # or a Vec that a listing loop fills by pushes only (the producing activation is then checked as well)
+        try:
+            av = act.operand(lp.next_call.args[0]) if lp.next_call.args else None
+        except RecursionError:
+            av = None
+        if av is None:
+            continue
+        pv = peel_pushed(act.I.prog, av)
+        if pv is not None:
+            if relayed is not None and pv[2] in act.I.pushed:
+                relayed.append(pv[2])
+                listing.append(lp)
+            continue
+        while av[0] == 'mutated' and not (act.I.prog.fns[av[2][0]].local_ty(av[2][1]) or '').startswith('std::vec::Vec<'):
+            av = av[1]
+        if not any(isinstance(x, tuple) and x and x[0] in ('mutated', 'pushed', 'unknown', 'bottom', 'dead') for x in walk(av)):
+            try:
+                al = iters.alts(E.slicer, av)
+            except Exception:
+                al = []
+            if len(al) == 1 and al[0][1] is not None and is_listing(al[0][1]):
+                listing.append(lp)
     if loops and not listing:
         return 'nested'
     if listing:
@@ -1490,11 +1723,31 @@ def must_insert(prog, sl, E, h, ext, is_listing):
             continue
         for a, bb in chain + [(act, c.bb)]:
             per_act.setdefault(id(a), (a, set()))[1].add(bb)
-    for a, bbs in per_act.values():
+    work = list(per_act.values())
+    done = set()
+    while work:
+        a, bbs = work.pop()
+        relayed = []
         try:
-            r = _bypass(E, a, bbs, is_listing)
+            r = _bypass(E, a, bbs, is_listing, relayed)
         except RecursionError:
             r = 'nested'
+        for key in relayed:
+            # two-phase reader: the insert runs per element of a Vec; every listed entry that is not a directory must
+            # also reach one of the pushes that fill that Vec (in the activation that builds it)
+            if key in done:
+                continue
+            done.add(key)
+            pa, pcs = I.pushed[key]
+            chain = _act_chain(root, pa)
+            if chain is None or not pcs:
+                unknown.append('the activation that fills the vector iterated in %s is not reached from the reader' % a.fn.path.split('::')[-1])
+                continue
+            extra = {}
+            for a2, bb in chain:
+                extra.setdefault(id(a2), (a2, set()))[1].add(bb)
+            extra.setdefault(id(pa), (pa, set()))[1].update(c.bb for c in pcs)
+            work.extend(extra.values())
         if r == 'yes':
             probs.append('in %s a listed entry that is not a directory can be passed over without reaching the insert' % a.fn.path.split('::')[-1])
         elif r == 'nested':
